@@ -205,7 +205,9 @@ theorem Subscribe.filterLoop_safe :
         have hb : b.st = .ok := by rw [← hb1] at hok1; exact get_st_ok _ _ _ hok1
         have hinv : b.rest ≠ [] ∧ ∃ v w, decBin [] b.rest = .ok v w ∧ r1.1.rest = b.rest.drop w ∧ r1.2 = v := by
           have := get_ok_inv b (decBin []) [] (by rw [hb1]; exact hok1) hb
-          rw [hb1] at this; exact this
+          rw [hb1] at this
+          obtain ⟨a1, a2, a3, a4, _, a5, a6⟩ := this
+          exact ⟨a1, a2, a3, a4, a5, a6⟩
         obtain ⟨hne, v, w, hdec, hrest, _⟩ := hinv
         have hw := decBin_ok_w _ _ _ _ hdec
         have hpos : 0 < b.rest.length := List.length_pos_iff.mpr hne
@@ -284,7 +286,9 @@ theorem Unsubscribe.filterLoop_safe :
       · have hb : b.st = .ok := by rw [← hb1] at hok1; exact get_st_ok _ _ _ hok1
         have hinv : b.rest ≠ [] ∧ ∃ v w, decBin [] b.rest = .ok v w ∧ r1.1.rest = b.rest.drop w ∧ r1.2 = v := by
           have := get_ok_inv b (decBin []) [] (by rw [hb1]; exact hok1) hb
-          rw [hb1] at this; exact this
+          rw [hb1] at this
+          obtain ⟨a1, a2, a3, a4, _, a5, a6⟩ := this
+          exact ⟨a1, a2, a3, a4, a5, a6⟩
         obtain ⟨hne, v, w, hdec, hrest, _⟩ := hinv
         have hw := decBin_ok_w _ _ _ _ hdec
         have hpos : 0 < b.rest.length := List.length_pos_iff.mpr hne
